@@ -12,20 +12,21 @@ CFG = dict(
         "Inst.gen_prev_sound: handle_append_entries' prev-entry test accepts only a matching term",
         "Inst.gen_pick_quorum: try_advance_commit_index picks a position a quorum of the match values reach",
         "Inst.gen_commit_current_term: try_advance_commit_index commits only an entry of the current term",
+        "Inst.gen_entries_with_known_prev: get_entries_for_follower sends entries only with a prev entry still in the log",
     ],
     crate="nvh_c01",
     header=H + "From NV.C01 Require Import Model Run.\nOpen Scope N_scope.",
     kinds={"sched": ("sched_case", "check_sched"), "compact": ("compact_case", "check_compact")},
     known_classes={},
     shard=8,
-    rule="seeded schedules (message delivery in any order with duplication and loss, timeouts with and without pre-vote, proposals, heartbeats, crash/restart from the WAL) over 3- and 5-node clusters of real WAL-backed RaftNodes whose transport is captured by the harness; pre-vote / fast-path / geometric tie-break / adaptive backoff each on and off",
+    rule="seeded schedules (message delivery in any order with duplication and loss, timeouts with and without pre-vote, proposals, heartbeats, leadership-transfer TimeoutNow, finalize + log compaction with 0-2 trailing entries, crash/restart from the WAL) over 3- and 5-node clusters of real WAL-backed RaftNodes whose transport is captured by the harness; pre-vote / fast-path / geometric tie-break / adaptive backoff each on and off",
     trusted_base=COMMON_TB + [
         "guarded read-only hook RaftNode::verif_log_image / verif_voted_for (cfg neumann_verif) to observe the log",
-        "modelled, not verified: fixed membership; log compaction (finalize_to / create_snapshot / truncate_log) is NOT in the executable model: schedules with compaction steps are judged by the index-aware safety oracles on the implementation's observations only (kind `compact`), no theorem covers them; snapshot install/transfer is not exercised (no production sender of SnapshotRequest exists); leadership transfer is modelled at the receiving side (handle_timeout_now = start_election at once; its believed-leader/term guard is a refusal oracle), the leader-side transfer bookkeeping only blocks proposals (refusal oracle); wall-clock and float guards (pre-vote timeout_elapsed, candidate health, geometric tie-break, is_write_safe) are refusal oracles whose outcome is taken from the implementation's answer (they can only refuse); the tokio heartbeat task, the TCP transport and HashMap iteration order are outside the model (peers are iterated in the order given at construction, as the code does)",
+        "modelled, not verified: fixed membership; log compaction (finalize_to / create_snapshot / truncate_log: log_base_index, compacted prev treated as consistent, compacted entries skipped, entries sent only with a nameable prev, non-successor entries refused) IS in the executable model and inside the theorems (the model keeps the whole log plus the base; the implementation's array is the suffix); snapshot install / chunked snapshot transfer is not modelled and not exercised (no production code sends SnapshotRequest); leadership transfer is modelled at the receiving side (handle_timeout_now = start_election at once; its believed-leader/term guard is a refusal oracle), the leader-side transfer bookkeeping only blocks proposals (refusal oracle); wall-clock and float guards (pre-vote timeout_elapsed, candidate health, geometric tie-break, is_write_safe) are refusal oracles whose outcome is taken from the implementation's answer (they can only refuse); the tokio heartbeat task, the TCP transport and HashMap iteration order are outside the model (peers are iterated in the order given at construction, as the code does)",
     ],
     assumptions=["crash = the node object is dropped and rebuilt with RaftNode::with_wal from its own WAL file (C10 covers torn writes of that file)"],
 )
 MANIFEST = dict(
-    text="All four clauses of the statement are Coq theorems about the executable cluster model, for every cluster size, every schedule (deliveries in any order with duplication and loss, timeouts with and without pre-vote, proposals, heartbeats, refusal oracles, crash/restart) and for the quorum size, acknowledgement, follower-commit and stale-response rules regenerated from the source on every run: election safety (refinement to an abstract voting protocol + quorum intersection), log matching (ghost ledger of leader logs), leader completeness for quorum-acknowledged entries, and state-machine safety across time (C01_state_machine_safety: whatever one node reported committed up to k after a schedule is what any node holds and reports up to k after any continuation; C01_leader_holds_committed: every later leader holds it). The model is replayed against clusters of real WAL-backed RaftNodes on seeded and corpus schedules (every observation and every message must agree), and the four safety clauses are also evaluated as oracles on the implementation's own observations, including a corpus schedule that broke leader completeness before the ack-rule repair.",
-    note="Trusted: Coq kernel, rs2v.py + gen_C01.py (ack rule, follower-commit rule, stale-ack rule, quorum size, vote up-to-date rule, prev-entry test, commit position and term guard), harness + driver, the read-only hook. Modelled, not verified: fixed membership; compaction is oracle-only (no model, no theorem); no snapshot install; timing/float guards and the TimeoutNow guard are refusal oracles.",
+    text="All four clauses of the statement are Coq theorems about the executable cluster model, for every cluster size, every schedule (deliveries in any order with duplication and loss, timeouts with and without pre-vote, proposals, heartbeats, refusal oracles, crash/restart) and for the quorum size, acknowledgement, follower-commit and stale-response rules regenerated from the source on every run: election safety (refinement to an abstract voting protocol + quorum intersection), log matching (ghost ledger of leader logs), leader completeness for quorum-acknowledged entries, state-machine safety across time, with log compaction steps in the schedules (C01_state_machine_safety: whatever one node reported committed up to k after a schedule is what any node holds and reports up to k after any continuation; C01_leader_holds_committed: every later leader holds it). The model is replayed against clusters of real WAL-backed RaftNodes on seeded and corpus schedules (every observation and every message must agree), and the four safety clauses are also evaluated as oracles on the implementation's own observations, including a corpus schedule that broke leader completeness before the ack-rule repair.",
+    note="Trusted: Coq kernel, rs2v.py + gen_C01.py (ack rule, follower-commit rule, stale-ack rule, quorum size, vote up-to-date rule, prev-entry test, commit position and term guard), harness + driver, the read-only hook. Modelled, not verified: fixed membership; no snapshot install/transfer; timing/float guards and the TimeoutNow guard are refusal oracles.",
 )
